@@ -579,6 +579,19 @@ def OpOk (E : Env) (P : Nat) : WOp → Prop
   | .addTrait _ _ t => ¬ copyKind t ∧ ∀ c, GoodCore E P c t
   | _ => True
 
+/-- Boolean version of `OpOk` for histories without `add_trait`. -/
+def opOkB (P : Nat) : WOp → Bool
+  | .set _ _ v => decide (v < P)
+  | .mutate _ _ x => decide (x < P)
+  | .mutateInner _ _ x => decide (x < P)
+  | .addTrait _ _ _ => false
+  | _ => true
+
+theorem opOk_of_bool {E : Env} {P : Nat} (l : List WOp) (h : l.all (opOkB P) = true) : ∀ op ∈ l, OpOk E P op := by
+  intro op hop
+  have := List.all_eq_true.mp h op hop
+  cases op <;> simp_all [opOkB, OpOk]
+
 theorem setInst_extends {E : Env} {P : Nat} {w : World} (g : Good E P w) (i : Nat) (o o' : Inst)
     (extra : TraitCore → Prop) (hi : w.insts[i]? = some o) (h1 : o'.oid = o.oid) (h2 : o'.dict = o.dict)
     (h3 : ∀ p ∈ o'.itraits, w.Cores p.2.core ∨ extra p.2.core) :
